@@ -19,7 +19,8 @@ EXPLANATION = (
 ASSUMPTIONS = ["redb write transactions are atomic and durable at commit (trusted)", "an uncommitted transaction is invisible after a crash"]
 
 SI = "<store::fs::StoreInstance<'a> as ranger::Store<sync::SignedEntry>>::"
-COMMITTERS = {"store::fs::Store::tables", "store::fs::Store::modify", "store::fs::Store::flush", "store::fs::Store::snapshot", "store::fs::Store::snapshot_owned"}
+# MayCommit is computed from the call graph (a body that reaches TransactionAndTables::commit); no function is assumed to commit
+COMMITTERS = set()
 
 
 class Effects:
@@ -138,7 +139,7 @@ def r2(ctx):
         ctx.check(ok, "C06.R2", b.path, "write-inside-modify.%s.%s" % (name, op), "table write happens only inside the closure passed to Store::modify (the shared write transaction), directly or in a helper called only from there", t["sp"])
     if n < 15:
         raise mir.AnchorMissing("expected >=15 table write sites, found %d" % n)
-    allowed = {"store::fs::Store::flush", "store::fs::Store::snapshot", "store::fs::Store::tables", "store::fs::Store::modify",
+    allowed = {"store::fs::Store::flush", "store::fs::Store::snapshot", "store::fs::Store::tables",
                "store::fs::Store::new_impl", "store::fs::migrations::run_migration", "store::fs::tables::TransactionAndTables::commit",
                "store::fs::migrate_redb_v2_tuples::run"}
     def only_from(path, depth=3):
@@ -154,8 +155,8 @@ def r2(ctx):
             if t["f"].get("name") == "commit" and callee_matches(t, r"(TransactionAndTables|WriteTransaction)::commit"):
                 nc += 1
                 ctx.check(only_from(b.path), "C06.R2", b.path, "commit-caller", "commit is called only by the transaction managers (or a private helper that only they call)", t["sp"])
-    if nc < 6:
-        raise mir.AnchorMissing("expected >=6 commit call sites, found %d" % nc)
+    if nc < 4:
+        raise mir.AnchorMissing("expected >=4 commit call sites, found %d" % nc)
     # durability is never lowered: a non-durable commit makes flush() acknowledge data that a crash loses.
     # (expected count zero; the positive control is the number of redb::WriteTransaction calls seen)
     wt_calls = 0
@@ -201,7 +202,7 @@ def r3(ctx):
                         ok = b.dominates(bi, sbi)
     ctx.check(ok, "C06.R3", "actor::Actor::on_action", "FlushStore-replies-with-flush-result", "the reply to FlushStore is the result of store.flush(), sent after it", hs[0].sp if hs else None)
     # age-based commit: elapsed() > MAX_COMMIT_DELAY in tables/modify
-    for name in ("tables", "modify"):
+    for name in ("tables",):
         b = f.body("store::fs::Store::" + name)
         ctx.touch(b)
         from .common import comparisons
@@ -217,7 +218,7 @@ def r3(ctx):
                 if any("elapsed" in x for x in sb) and any("MAX_COMMIT_DELAY" in x for x in sa) and c["op"] in ("<", "<="):
                     ok = True
         ctx.check(ok, "C06.R3", b.path, "age-check", "commits the open transaction when since.elapsed() > MAX_COMMIT_DELAY", b.sp)
-    ctx.floor("C06.R3", 6)
+    ctx.floor("C06.R3", 5)
 
 
 def eval_txmgr(f, fn, state, old=False, commit_ok=True, closure_ok=True):
@@ -305,8 +306,12 @@ def r4(ctx):
         spec[(fn, "None", False, True)] = (res_new, "Write(%s)" % NEW_W, ["begin_write"] + tail_new)
         spec[(fn, "Read", False, True)] = (res_new, "Write(%s)" % NEW_W, ["begin_write"] + tail_new)
         spec[(fn, "Write", False, True)] = (res_old, "Write(wtx)", tail_old)
-        spec[(fn, "Write", True, True)] = (res_new, "Write(%s)" % NEW_W, ["commit(wtx)", "begin_write"] + tail_new)
-        spec[(fn, "Write", True, False)] = ("Err(", None, ["commit(wtx)"])
+        if run_f:
+            # modify is a step of an operation: it must not place a commit between that operation's writes, however old the transaction is
+            spec[(fn, "Write", True, True)] = (res_old, "Write(wtx)", tail_old)
+        else:
+            spec[(fn, "Write", True, True)] = (res_new, "Write(%s)" % NEW_W, ["commit(wtx)", "begin_write"] + tail_new)
+            spec[(fn, "Write", True, False)] = ("Err(", None, ["commit(wtx)"])
     for (fn, state, old, cok), (wres, wfin, wlog) in spec.items():
         b = f.body("store::fs::Store::" + fn)
         ctx.touch(*f.scope(b.path, prefix="store::fs::Store::"))
@@ -314,7 +319,7 @@ def r4(ctx):
         ok = got.startswith(wres) and (wfin is None or fin == wfin) and log == wlog
         ctx.check(ok, "C06.R4", b.path, "tx[%s%s%s]" % (state, ",older-than-MAX_COMMIT_DELAY" if old else "", ",commit-fails" if not cok else ""),
                   "returns %s, leaves %s open, redb calls %s; spec: %s, %s, %s (an open write transaction is committed - never dropped - before it is replaced; a failed commit is reported; "
-                  "a young write transaction is reused so that one operation's writes stay together)" % (got, fin, log, wres, wfin, wlog), b.sp)
+                  "a write transaction is reused by modify() whatever its age so that one operation's writes stay together; aged transactions are committed by tables(), at the read that starts an operation)" % (got, fin, log, wres, wfin, wlog), b.sp)
     # a failing transaction body is reported, and the shared transaction stays open: what earlier operations wrote into it
     # is neither committed on the spot nor rolled back
     mb = f.body("store::fs::Store::modify")
@@ -322,7 +327,7 @@ def r4(ctx):
         got, fin, log = eval_txmgr(f, "modify", state, False, True, closure_ok=False)
         ctx.check(got.startswith("Err(") and fin == want_fin and log == want_log, "C06.R4", mb.path, "tx[%s,transaction-body-fails]" % state,
                   "returns %s, leaves %s open, redb calls %s; spec: Err, %s, %s (the error of one operation must not drop the writes of earlier, acknowledged operations)" % (got, fin, log, want_fin, want_log), mb.sp)
-    ctx.floor("C06.R4", 24)
+    ctx.floor("C06.R4", 23)
 
 
 def run(ctx):
